@@ -13,6 +13,7 @@ package main
 //     conversions to in-range values.
 
 import (
+	"strconv"
 	"fmt"
 	"strings"
 )
@@ -224,6 +225,16 @@ func (e *wexpr) wgsl0() string {
 			a, b = a+".0", b+".0"
 		}
 		return "f32(" + a + " % " + b + ")"
+	case "frem": // f32 remainder of two half-integral constants (C06): (aval/2) % (bits/2)
+		half := func(v int64) string { return strconv.FormatFloat(float64(v)/2, 'f', 1, 64) }
+		a, b := half(e.aval), half(int64(int32(e.bits)))
+		switch e.op {
+		case "1":
+			a = "vec2<f32>(" + a + ", 1.0).x"
+		case "2":
+			b = "vec2<f32>(1.0, " + b + ").y"
+		}
+		return "(" + a + " % " + b + ")"
 	case "aneg":
 		return "(-" + e.args[0].wgsl() + ")"
 	case "abin":
@@ -251,6 +262,8 @@ func (e *wexpr) sexp() string {
 		fmt.Fprintf(&b, "(aint %d)", e.aval)
 	case "fmix":
 		fmt.Fprintf(&b, "(fmix %d %d)", e.aval, int32(e.bits))
+	case "frem":
+		fmt.Fprintf(&b, "(frem %d %d)", e.aval, int32(e.bits))
 	case "aneg":
 		fmt.Fprintf(&b, "(aneg %s)", e.args[0].sexp())
 	case "abin":
